@@ -471,3 +471,49 @@ Example C19_example_hasparser :
   has_parser parser_dispatch (fun _ => false)
     (of_ascii [115; 116; 114; 105; 110; 103; 115; 46; 116; 120; 116]%nat) = false.
 Proof. vm_compute. repeat split. Qed.
+
+(* ---- END TO END with the checker of C06 instead of a parameter ------------------------------
+   [props_lint_chk locale text] (Model/CheckPlain.v) is the .properties checker model of C06
+   (Model/CheckProps.v) behind the checker interface of the linter: check(e, e) of the entity
+   against itself, key and raw value from the entity object, the value by .val (the unescape),
+   pre_comment.all and .all read from the TEXT with the parser model at the entity's offset;
+   level, EntityPos / value offset, message text and category are kept; a raise of .val or of
+   the checker would be an error finding.
+   For a plain file (the linted text has no per cent sign, no backslash, no U+FFFD and does
+   not contain the Localization_and_Plurals literal) the silence assumed by
+   C19_end_to_end_properties is proved (C06_check_plain_silent_self), so with that checker the
+   result is exactly [pexpected all rref]. *)
+From CL Require Model.CheckProps.
+From CL Require Import Model.CheckPlain Generated.C06Facts Proofs.E2ECheckedFinal.
+
+Theorem C19_end_to_end_properties_checked :
+  forall (locale : option str) (all : list jblock) (rref : option (list jblock)) (j0 : nat),
+  Forall legal_jblock all -> jadjacent_ok all -> Forall block_key_ok all ->
+  match rref with
+  | Some rbs => Forall legal_jblock rbs /\ jadjacent_ok rbs
+  | None => True
+  end ->
+  CheckProps.mem_N c_pct (jfile_text all) = false ->
+  CheckProps.mem_N c_backslash (jfile_text all) = false ->
+  CheckProps.mem_N c_fffd (jfile_text all) = false ->
+  contains lit_plural_comment (jfile_text all) = false ->
+  lint_properties j0 (Some (props_lint_chk locale (jfile_text all))) (jfile_text all)
+                  (option_map jfile_text rref) = Ok (pexpected all rref).
+Proof. exact e2e_properties_checked. Qed.
+
+(* the instantiated checker is the real one: linting the text  k=a\qb  reports the
+   unknown-escape warning of the checker at line 1, column 4; the plain text  k = a / m = b
+   against the reference  k = x / m = b  gives exactly the "changed" warning *)
+Example C19_example_checked :
+  let s_ := map N.of_nat in
+  let lt := s_ [107; 61; 97; 92; 113; 98; 10]%nat in
+  let pT := s_ [107; 32; 61; 32; 97; 10; 109; 32; 61; 32; 98; 10]%nat in
+  let pR := s_ [107; 32; 61; 32; 120; 10; 109; 32; 61; 32; 98; 10]%nat in
+  match @lint_properties str 0 (Some (props_lint_chk None lt)) lt None with
+  | Ok [f] => f_lineno f = 1 /\ f_column f = 4 /\ f_level f = LWarning /\
+              match f_message f with MCheck _ => True | _ => False end
+  | _ => False
+  end /\
+  @lint_properties str 0 (Some (props_lint_chk None pT)) pT (Some pR) =
+  Ok [mkFinding 1 1 LWarning (MChanged [107%N])].
+Proof. vm_compute. repeat split; reflexivity. Qed.
